@@ -48,6 +48,9 @@ def clientPassOk (t : List Act) : Bool :=
   (goesOn || ends_ "return " t) &&
   -- the error callback comes before the report, never after
   noneAfter (· == .call "Client.disconnected") (· == .call "Client.ErrorHandler") t &&
+  -- F-18b: a pass that returns has told the keepalive to stop - once, and BEFORE the error callback and the report
+  (cnt (.call "stopKeepalive") t == (if goesOn then 0 else 1)) &&
+  noneAfter (fun a => a == .call "Client.ErrorHandler" && !goesOn || a == .call "Client.disconnected") (· == .call "stopKeepalive") t &&
   -- every pass reads exactly one packet
   (cnt (.call "stanza.NextPacket") t == 1)
 
@@ -63,7 +66,7 @@ loop starts -/
 theorem client_recv_defers_quit :
     ((XmppVerif.Gen.Fx.all.lookup "Client.recv").map fun f =>
       match f with
-      | .act (.call "defer close") (.loop _ _) => true
+      | .act (.call "defer stopKeepalive") (.loop _ _) => true
       | _ => false) = some true := by decide
 
 /-- one pass of Component.recv: the packet is routed synchronously, in the loop (arrival order), exactly once on a pass
@@ -109,7 +112,7 @@ theorem keepalive_pass_every_run :
 
 /-- the kinds of action the model speaks about -/
 inductive K where
-  | route | answer | errh | disconnected | streamErrorEv | disconnect | streamClose
+  | route | answer | errh | disconnected | streamErrorEv | disconnect | streamClose | quit
   deriving DecidableEq, Repr
 
 /-- a pass, abstractly: the kinds in order, whether the inbound counter was incremented, whether the loop goes on -/
@@ -125,6 +128,7 @@ def kindOfAct (who : String) : Act → Option K
     else if w == who ++ ".streamError" then some .streamErrorEv
     else if w == who ++ ".Disconnect" then some .disconnect
     else if w == "Transport.ReceivedStreamClose" then some .streamClose
+    else if w == "stopKeepalive" then some .quit            -- the keepalive of the session is told to stop
     else none
   | _ => none
 
@@ -135,7 +139,7 @@ open XmppVerif.Model.Recv in
 def kindOfModel : Model.Recv.Act → K
   | .route _ => .route | .answer _ => .answer | .errh => .errh | .disconnected _ _ => .disconnected
   | .streamErrorEv => .streamErrorEv | .disconnect => .disconnect | .streamClose => .streamClose
-  | .quitClosed => .streamClose   -- never produced by a step (the deferred close is `client_recv_defers_quit`)
+  | .quitClosed => .quit
 
 /-- the model's pass for one input; a failed answer was still attempted (the model omits writes that fail) -/
 def passOfModel (i : Model.Recv.In) : Pass :=
